@@ -373,13 +373,7 @@ class Rewriter:
 
     def apply(self, scope, text):
         u = self.unit
-        text = self.r1_logs(scope, text)
-        if "R5" in u.rw:
-            text = self.r5_ready(scope, text)
-        if "R3" in u.rw:
-            text = self.r3_pin(scope, text)
-        if "R13" in u.rw:
-            text = self.r13_bytestr(scope, text)
+        # per-unit literal replaces first (they quote the ORIGINAL source text), then the general rewrites
         for (rid, sc, old, new, cnt) in u.replaces:
             if sc != scope:
                 continue
@@ -388,6 +382,13 @@ class Rewriter:
                 raise Undecided("lost anchor: @replace %s in %s expects %d occurrence(s) of %r, found %d" % (rid, scope, cnt, old[:60], n))
             text = text.replace(old, new)
             self.note(rid, scope, old, new)
+        text = self.r1_logs(scope, text)
+        if "R5" in u.rw:
+            text = self.r5_ready(scope, text)
+        if "R3" in u.rw:
+            text = self.r3_pin(scope, text)
+        if "R13" in u.rw:
+            text = self.r13_bytestr(scope, text)
         if u.index_recv:
             text = self.r6_index(scope, text)
         return text
